@@ -88,8 +88,9 @@ def run(ctx):
     ctx.floor('C11.6', nl, 4, 'show_messages calls from list_command')
 
     # the all-connections record is complete (same obligation as C06.1) and connection.messages() is the connection's record
-    from .c06 import check_recorded
+    from .c06 import check_recorded, check_selection
     check_recorded(ctx, 'C11.2')
+    check_selection(ctx, 'C11.2')
     check_writers(ctx, 'C11.2', CTRL, 'all_messages', [('Controller.__init__', lambda w: w.fresh and isinstance(w.stmt.value, ast.List)),
                                                         ('Controller.connection_got_new_message', lambda w: w.kind == 'mutate' and w.via == 'append')], floor=2)
     check_writers(ctx, 'C11.2', 'core.connection_impl.ConnectionImpl', 'message_list', [('ConnectionImpl.__init__', lambda w: w.fresh and isinstance(w.stmt.value, ast.List)),
